@@ -233,13 +233,12 @@ Definition update (st : store) (k : Z) (e : entry) : store := (k, e) :: remove s
 
 (* behaviour of the source if this request has to ask it *)
 Inductive upstream :=
-| UOk (body : Z) (buffered : option (stamp * Z)) (stored : entry)
-      (* an image.  buffered = Some (now, size): the backend wrote the bytes through tile_buffer, which stamps the tile
-         with time.time() = now and its encoded size.  buffered = None: file cache with link_single_color_images and
-         the shared single-colour file already exists - the tile is only linked, tile_buffer does not run and the
-         tile keeps timestamp None / size None (the body of this answer is the freshly encoded image, the bytes of
-         the shared file may differ).  Later loads will report `stored`: mtime given by the file system / second
-         kept by sqlite, size and bytes of what was written; for a linked tile see `entry` above. *)
+| UOk (body : Z) (now : stamp) (size : Z) (stored : entry)
+      (* an image (body = the freshly encoded bytes of this answer).  The tile object of the request is stamped
+         (now, size): tile_buffer = time.time() and the encoded size; for a file cache with link_single_color_images
+         _store_single_color_tile afterwards sets the lstat values of the tile location (repair of C20-L1), so there
+         (now, size) are the timestamp and size of `stored`.  Later loads report `stored`: mtime given by the file
+         system / second kept by sqlite, size and bytes of what was written; for a linked tile see `entry` above. *)
 | UFill (body : Z)      (* error handler answered with a fill image, `cache: false` *)
 | UErr.                 (* SourceError without handler: error page, no cache headers involved *)
 
@@ -252,16 +251,37 @@ Definition load (st : store) (k : Z) (up : upstream) : store * option (tinfo * Z
   | Some e => (st, Some (info_of_entry e, e_body e))
   | None =>
     match up with
-    | UOk body buffered stored =>
+    | UOk body now size stored =>
       (update st k stored,
-       Some ({| ti_cacheable := true; ti_ts := option_map fst buffered; ti_size := option_map snd buffered |}, body))
+       Some ({| ti_cacheable := true; ti_ts := Some now; ti_size := Some size |}, body))
     | UFill body => (st, Some ({| ti_cacheable := false; ti_ts := None; ti_size := None |}, body))
     | UErr => (st, None)
     end
   end.
 
+(* the same for a request that finds the stored tile STALE (refresh_before / expire rule; single tile path, i.e.
+   meta_size 1x1: TileManager._load_tile_coords hands the loaded Tile object to _create_single_tile):
+   the source is asked again.  _create_single_tile forgets timestamp and size of the loaded (replaced) tile when it
+   attaches the new source (repair of C20-L3), so an image is stamped and stored exactly like a fresh tile, and a fill
+   image with cache: false is answered uncacheable while the old entry stays.  SourceError: the stale tile is served
+   as it is. *)
+Definition load_stale (st : store) (k : Z) (up : upstream) : store * option (tinfo * Z) :=
+  match lookup st k with
+  | None => load st k up
+  | Some e =>
+    match up with
+    | UOk body now size stored =>
+      (update st k stored,
+       Some ({| ti_cacheable := true; ti_ts := Some now; ti_size := Some size |}, body))
+    | UFill body => (st, Some ({| ti_cacheable := false; ti_ts := None; ti_size := None |}, body))
+    | UErr => (st, Some (info_of_entry e, e_body e))
+    end
+  end.
+
 Inductive event :=
 | Req (svc : service) (k : Z) (inm : option str) (ims : imsval) (up : upstream)
+| Refresh (svc : service) (k : Z) (inm : option str) (ims : imsval) (up : upstream)
+      (* a request for which the expiry rule of the cache (C13) calls the stored tile stale *)
 | Rewrite (k : Z) (e : entry)       (* the tile is written again (seeding, refresh, another process) *)
 | Remove (k : Z).
 
@@ -269,6 +289,11 @@ Definition step (h : str -> str) (tps : Z) (max_age : option Z) (st : store) (ev
   match ev with
   | Req svc k inm ims up =>
     match load st k up with
+    | (st', Some (ti, body)) => (st', Some (serve svc h tps max_age ti body inm ims))
+    | (st', None) => (st', Some Err500)
+    end
+  | Refresh svc k inm ims up =>
+    match load_stale st k up with
     | (st', Some (ti, body)) => (st', Some (serve svc h tps max_age ti body inm ims))
     | (st', None) => (st', Some Err500)
     end
